@@ -316,6 +316,17 @@ fn programs<C: CellType>() -> Vec<Vec<Instr<C>>> {
             }
         }
     }
+    // every move distance the generator can produce for small programs, alone, after a store, and
+    // as the stride of a loop (a special-cased distance must still move by exactly that distance)
+    for sh in -18isize..=18 {
+        if sh == 0 {
+            continue;
+        }
+        out.push(vec![Instr::Mov(sh)]);
+        out.push(vec![Instr::Copy(Loc::Mem(0), Loc::Imm(C::from_u8(9))), Instr::Mov(sh), Instr::Copy(Loc::Mem(0), Loc::Imm(C::from_u8(7))), Instr::Mov(-sh)]);
+        out.push(vec![Instr::BrZ(0, 4), Instr::Out(0), Instr::Mov(sh), Instr::BrNZ(0, -2)]);
+        out.push(vec![Instr::Scan(0, sh)]);
+    }
     for a in &al[..12] {
         for b in &al {
             for c in &al[..12] {
